@@ -120,3 +120,34 @@ Theorem C07_batchrelease_without_requeue_is_settled :
   Corr.BRExec.wl_eqb w (BRExec.r_workload r) = false \/ Corr.BRExec.waits_br sp (BRExec.r_status r) (BRExec.r_workload r) = true.
 Proof. exact Proofs.BRExec.br_no_self_wake_means_settled. Qed.
 Print Assumptions C07_batchrelease_without_requeue_is_settled.
+
+(* ---------- the wake-ups come (Model/Events.v: the controllers' event handlers) ---------- *)
+From RV Require Model.Events Proofs.Events.
+(* the BatchRelease controller stops for a workload whose controller has not caught up (observedGeneration < generation); when
+   the workload controller catches up, the workload's BatchRelease is enqueued *)
+Theorem C07_workload_catching_up_wakes_its_batchrelease : forall brs old new n,
+  Events.wo_ctl new = Events.CiBatchRelease n -> sempty n = false -> Events.wo_rv new <> Events.wo_rv old ->
+  Events.ws_obs_gen (Events.wo_status old) <> Events.ws_obs_gen (Events.wo_status new) ->
+  Events.br_on_workload_update brs old new = [n].
+Proof. exact Proofs.Events.workload_catching_up_wakes_its_batchrelease. Qed.
+Print Assumptions C07_workload_catching_up_wakes_its_batchrelease.
+Theorem C07_claimed_workload_change_wakes_its_batchrelease : forall brs old new n,
+  Events.wo_ctl new = Events.CiBatchRelease n -> sempty n = false -> Events.wo_rv new <> Events.wo_rv old ->
+  (Events.wo_gen old <> Events.wo_gen new \/ Events.wstatus_eqb (Events.wo_status old) (Events.wo_status new) = false) ->
+  Events.br_on_workload_update brs old new = [n].
+Proof. exact Proofs.Events.claimed_workload_change_wakes_its_batchrelease. Qed.
+Print Assumptions C07_claimed_workload_change_wakes_its_batchrelease.
+Theorem C07_pod_readiness_change_wakes_the_batchrelease : forall brs w old new n,
+  Events.wo_ctl w = Events.CiBatchRelease n -> sempty n = false -> Events.po_rv old <> Events.po_rv new -> Events.po_ready old <> Events.po_ready new ->
+  Events.br_on_pod_update brs (Some w) old new = [n].
+Proof. exact Proofs.Events.pod_readiness_change_wakes_the_batchrelease. Qed.
+Print Assumptions C07_pod_readiness_change_wakes_the_batchrelease.
+(* the Rollout controller waiting for its BatchRelease (C07_quiet_rolling_is_waiting) is woken by every update of it, and by
+   every event of the workload it references *)
+Theorem C07_batchrelease_update_wakes_its_rollout : forall name, Events.ro_on_batchrelease_event Events.EvUpdate name = [name].
+Proof. exact Proofs.Events.batchrelease_update_wakes_its_rollout. Qed.
+Print Assumptions C07_batchrelease_update_wakes_its_rollout.
+Theorem C07_workload_event_wakes_a_referencing_rollout : forall ros w r, In r ros -> Events.ro_targets w r = true ->
+  exists r', Events.ro_on_workload_event ros w = [Events.rf_name r'] /\ In r' ros /\ Events.ro_targets w r' = true.
+Proof. exact Proofs.Events.workload_event_wakes_a_referencing_rollout. Qed.
+Print Assumptions C07_workload_event_wakes_a_referencing_rollout.
